@@ -207,7 +207,7 @@ impl Scenario for Bytes {
         let pid = self.pid();
         let mut h = LogHash::new();
         let mut real = DynSet::new(cfg.set);
-        let mut kb = Keyboard::new(DynSet::new(cfg.set), DynLayout::Direct(2), hc(true));
+        let mut kb = KbAny::new(cfg.set, DynLayout::Direct(2), hc(true));
         let mut m2 = RefSet2::new();
         let mut m1 = RefSet1::new();
         let mut shadow = DynSet::new(cfg.set);
